@@ -17,8 +17,21 @@ static int tv_valid(const struct tval *t) {
 #endif
     return INT_EXT ? 1 : tv_in_root(t->v);
 }
+#ifdef INT_WIDE    /* module compiled with -fwide-types: INTEGER_t representation (C13) */
+#undef tv_store
+struct tv_store_w { uint8_t b[10]; };
+#define tv_store tv_store_w
+static void tv_build(const struct tval *t, TYPE_T *o, struct tv_store *s) {
+    memset(o, 0, sizeof(*o));
+    int n = int_octets(t->v);
+    for(int i = 0; i < 8; i++) if(i < n) s->b[i] = (uint8_t)((uint64_t)t->v >> (8 * (n - 1 - i)));
+    s->b[n] = 0; o->buf = s->b; o->size = (size_t)n;
+}
+static int tv_match(const struct tval *t, const TYPE_T *o) { intmax_t x; return asn_INTEGER2imax(o, &x) == 0 && x == t->v; }
+#else
 static void tv_build(const struct tval *t, TYPE_T *o, struct tv_store *s) { (void)s; *o = (TYPE_T)t->v; }
 static int tv_match(const struct tval *t, const TYPE_T *o) { return (int64_t)*o == t->v; }
+#endif
 static size_t ref_der(const struct tval *t, uint8_t *out, size_t cap) {
     struct rbuf o = { out, 0, cap };
     der_int_tagged(&o, CL_UNIV, 2, t->v);
